@@ -356,6 +356,9 @@ pub fn c13_remove_validator(_m: &mut Mon, ctx: &StepCtx, stats: &mut Stats, out:
         return;
     }
     stats.check("c13_removal");
+    if ctx.pre_w.delegation(HUB, &removed) > 0 && ctx.pre_w.total_delegated(HUB) < post_reg.len() as u128 + 1 {
+        stats.probe("c13_removal_from_pool_smaller_than_validator_count");
+    }
     if post_reg.contains(&removed) {
         viol(out, "C13", "removed_validator_leaves_registry", ctx.idx, "registry.RemoveValidator:still_registered", format!("{} still registered", removed));
     }
